@@ -72,20 +72,77 @@ def relevant_axioms(vc: VC, axioms: List[z3.BoolRef]) -> List[z3.BoolRef]:
     return out
 
 
-def vc_to_smt2(vc: VC, axioms: List[z3.BoolRef]) -> str:
+def _is_frame_fact(p) -> bool:
+    """Quantified frame / well-formedness facts the engine emits for havocked heap arrays (`forall r. kept(r) => new[r] == old[r]`,
+    allocation monotonicity, non-negative lengths).  For a `new` array nothing else mentions they are satisfiable whatever the other symbols
+    are, so dropping them loses no information."""
+    return z3.is_quantifier(p) and p.is_forall() and p.num_vars() == 1 and p.var_name(0) in ("fo_r", "al_r", "wf_r")
+
+
+def prune_hypotheses(pc: List[z3.BoolRef], goal) -> List[z3.BoolRef]:
+    """Drops frame facts about heap arrays that nothing else mentions (not the goal, not any other remaining hypothesis), repeatedly:
+    chains of `new == old except at ...` for arrays the obligation never looks at, which otherwise swamp quantifier instantiation.
+    Dropping a hypothesis can only make a VC harder to discharge, never unsound."""
+    syms = [symbols(p) for p in pc]
+    gsym = symbols(goal)
+    alive = [True] * len(pc)
+    count: Dict[str, int] = {}
+    for ss in syms:
+        for x in ss:
+            count[x] = count.get(x, 0) + 1
+    changed = True
+    while changed:
+        changed = False
+        for i, ss in enumerate(syms):
+            if not alive[i]:
+                continue
+            if _is_frame_fact(pc[i]) and any(count[x] == 1 and x not in gsym for x in ss):
+                alive[i] = False
+                changed = True
+                for x in ss:
+                    count[x] -= 1
+    return [p for p, a in zip(pc, alive) if a]
+
+
+def vc_to_smt2(vc: VC, axioms: List[z3.BoolRef], pc: Optional[List] = None) -> str:
     s = z3.Solver()
     for a in relevant_axioms(vc, axioms):
         s.add(a)
-    for p in vc.pc:
+    for p in (pc if pc is not None else (prune_hypotheses(vc.pc, vc.goal) if os.environ.get("VERIF_NO_PRUNE") != "1" else vc.pc)):
         s.add(p)
     s.add(z3.Not(vc.goal))
     return s.to_smt2()
 
 
-def _solve_text(job: Tuple[int, str, int, bool]) -> Tuple[int, str, str, float]:
-    idx, text, rlimit, use_cvc5 = job
+def hypothesis_subsets(vc: VC) -> List[List]:
+    """Smaller hypothesis sets to try first: the function's preconditions/definitions (head of the path condition) plus the k most recent facts."""
+    pc = prune_hypotheses(vc.pc, vc.goal)
+    n = len(pc)
+    if n < 60:
+        return []
+    head = pc[:min(40, n // 4)]
+    out = []
+    for k in (12, 45, 110):
+        if k + len(head) < n - 10:
+            out.append(head + pc[n - k:])
+    return out
+
+
+def _solve_text(job) -> Tuple[int, str, str, float]:
+    idx, text, rlimit, use_cvc5 = job[:4]
+    subsets = job[4] if len(job) > 4 else []
     t0 = time.time()
     try:
+        # hypothesis subsets first (most recent facts + the function's preconditions): `unsat` from fewer hypotheses is a proof of the
+        # full obligation (monotonicity) and usually comes in milliseconds where the full path condition drowns quantifier instantiation
+        for sub in subsets:
+            ctx = z3.Context()
+            s = z3.Solver(ctx=ctx)
+            s.set("rlimit", max(rlimit // 8, 2_000_000))
+            s.set("timeout", 20 * 1000)
+            s.from_string(sub)
+            if str(s.check()) == "unsat":
+                return idx, "unsat", "z3", time.time() - t0
         ctx = z3.Context()
         s = z3.Solver(ctx=ctx)
         s.set("rlimit", rlimit)
@@ -138,10 +195,14 @@ def pool() -> mp.pool.Pool:
     return _POOL
 
 
-def solve_all(vcs: List[VC], axioms: List[z3.BoolRef], thorough: bool = False, parallel: bool = True) -> List[Result]:
+def solve_all(vcs: List[VC], axioms: List[z3.BoolRef], thorough: bool = False, parallel: bool = True, light_from: Optional[int] = None) -> List[Result]:
+    """`light_from`: VCs from this index on are must-not-verify canaries: a small budget suffices (they only have to stay unproved)."""
     rl = Z3_RLIMIT_THOROUGH if thorough else Z3_RLIMIT_QUICK
     ax = list(axioms) + V.str_axioms()
-    jobs = [(i, vc_to_smt2(vc, ax), rl, True) for i, vc in enumerate(vcs)]
+    jobs = []
+    for i, vc in enumerate(vcs):
+        light = light_from is not None and i >= light_from
+        jobs.append((i, vc_to_smt2(vc, ax), rl // 10 if light else rl, not light, [] if light else [vc_to_smt2(vc, ax, sub) for sub in hypothesis_subsets(vc)]))
     if parallel and len(jobs) > 4:
         raw = pool().map(_solve_text, jobs, chunksize=max(1, len(jobs) // 64))
     else:
